@@ -89,3 +89,9 @@ fn write_blob(w: &mut impl Write, data: &[u8]) -> RusticResult<()> {
         )
     })
 }
+
+#[cfg(rustic_core_verif)]
+#[allow(missing_docs, unused_imports, dead_code, clippy::all, clippy::pedantic, clippy::nursery)]
+pub mod verif_hooks {
+    use super::*;
+}
